@@ -133,11 +133,12 @@ Definition irun (p : iparams) (h : list iev) : ist := fold_left (iev_step p) h i
 (* ---- the staged scripts of the whole-channel model ---- *)
 Definition inc_script (p : iparams) (claim : bool) : list stage :=
   if claim then
-    mkStage [] [] ::                                        (* SwapContract *)
-    (if ip_two p then [mkStage [] []] else []) ++           (* Checkpoint(incubating) *)
-    [mkStage [OFinal (ip_idx p) true] (claim_reps p)]       (* checkpointClaim *)
+    mkStage [] [] 2 ::                                      (* SwapContract *)
+    (if ip_two p then [mkStage [] [] 0] else []) ++         (* Checkpoint(incubating) *)
+    [mkStage [OFinal (ip_idx p) true] (claim_reps p)
+             (if ip_two p then 1 else 0)]                   (* checkpointClaim *)
   else
-    [mkStage [OFinal (ip_idx p) false] (exp_reps p)].       (* expiry *)
+    [mkStage [OFinal (ip_idx p) false] (exp_reps p) 2].     (* expiry *)
 
 Definition inc_spec (p : iparams) (claim : bool) : rspec :=
   mkSpec (ip_key p) (inc_script p claim).
